@@ -91,6 +91,31 @@ pub fn gen_cases(cfg: &RunCfg) -> Vec<Case> {
     cases
 }
 
+/// classification of every definition from the observation; a definition that depends on a replaced one and
+/// is not represented may be the subject of a warning that names nobody
+/// (e.g. "VideotexString values are currently unsupported!")
+fn classify_c10(flat: &[(&M, &D)], obs: &Obs, deps: &BTreeSet<String>) -> Vec<(bool, bool)> {
+    let mut cls = classify(flat, &obs.warnings);
+    let names: Vec<&String> = flat.iter().map(|x| &x.1.name).collect();
+    let attributed = flat.iter().zip(cls.iter()).filter(|((_, d), (v, g))| *v && !*g && !gen_warned(&obs.warnings, &d.name) && d.fault.is_some()).count();
+    let anonymous_total = obs.warnings.iter().filter(|w| !names.iter().any(|n| w.contains(&format!(" {n}:")))).count();
+    let mut pool = anonymous_total.saturating_sub(attributed);
+    for (i, (m, d)) in flat.iter().enumerate() {
+        if pool == 0 {
+            break;
+        }
+        if cls[i] == (true, true) && deps.contains(&d.name) && d.fault.is_none() && !d.no_output() {
+            let mn = norm_mod(&m.name);
+            let represented = obs.mods.iter().any(|(n, items)| n == &mn && items.iter().any(|(id, _)| id == &d.rust_name()));
+            if !represented {
+                cls[i] = (true, false);
+                pool -= 1;
+            }
+        }
+    }
+    cls
+}
+
 struct Judged {
     disagreement: Option<Value>,
     /// (class, agrees, why)
@@ -100,7 +125,7 @@ struct Judged {
 }
 
 /// accounting + model tie for one compilation of `mods`
-fn judge_one(mods: &[M], obs: &Obs, ans: &str, label: &str) -> Judged {
+fn judge_one(mods: &[M], obs: &Obs, ans: &str, label: &str, dependents_of_faults: &BTreeSet<String>) -> Judged {
     let mut j = Judged { disagreement: None, unsat: vec![], harness: vec![], stats: vec![] };
     let sources = vec![mods.to_vec()];
     let flat = flatten(&sources);
@@ -130,7 +155,7 @@ fn judge_one(mods: &[M], obs: &Obs, ans: &str, label: &str) -> Judged {
         j.disagreement = Some(json!({"compilation": label, "difference": d}));
     }
     // accounting (the spec): every definition is represented, or warned about, or of a no-output category
-    let cls = classify(&flat, &obs.warnings);
+    let cls = classify_c10(&flat, obs, dependents_of_faults);
     for (i, (m, d)) in flat.iter().enumerate() {
         let mn = norm_mod(&m.name);
         let represented = obs.mods.iter().any(|(n, items)| n == &mn && items.iter().any(|(id, _)| id == &d.rust_name()));
@@ -261,10 +286,17 @@ pub fn run(cfg: &RunCfg) -> Report {
         let fm = c.faulted();
         let ob = observe(&render(&[c.base.clone()]));
         let of = observe(&render(&[fm.clone()]));
-        for (ms, o) in [(&c.base, &ob), (&fm, &of)] {
+        let mut roots: Vec<String> = Vec::new();
+        for (mi, di, _) in &c.faults {
+            roots.push(c.base[*mi].defs[*di].name.clone());
+            roots.push(fm[*mi].defs[*di].name.clone());
+        }
+        let mut deps = dependents(&c.base, &roots);
+        deps.extend(dependents(&fm, &roots));
+        for (ms, o, dp) in [(&c.base, &ob, BTreeSet::new()), (&fm, &of, deps)] {
             let sources = vec![ms.clone()];
             let flat = flatten(&sources);
-            let cls = classify(&flat, &o.warnings);
+            let cls = classify_c10(&flat, o, &dp);
             reqs.push(pipe_request(&flat, &cls));
         }
         obs.push((fm, ob, of));
@@ -286,8 +318,15 @@ pub fn run(cfg: &RunCfg) -> Report {
             rep.count(&format!("fault:{}", fm[*mi].defs[*di].fault.clone().unwrap_or_default()));
         }
         rep.distinct.insert(format!("{:?}", c.faults.iter().map(|(m, d, k)| (fm[*m].defs[*d].fault.clone(), c.base[*m].defs[*d].shape.clone(), *k)).collect::<Vec<_>>()));
-        let jb = judge_one(&c.base, ob, &ans[2 * k], "without faults");
-        let jf = judge_one(fm, of, &ans[2 * k + 1], "with faults");
+        let mut roots: Vec<String> = Vec::new();
+        for (mi, di, _) in &c.faults {
+            roots.push(c.base[*mi].defs[*di].name.clone());
+            roots.push(fm[*mi].defs[*di].name.clone());
+        }
+        let mut deps = dependents(&c.base, &roots);
+        deps.extend(dependents(fm, &roots));
+        let jb = judge_one(&c.base, ob, &ans[2 * k], "without faults", &BTreeSet::new());
+        let jf = judge_one(fm, of, &ans[2 * k + 1], "with faults", &deps);
         let mut loc = Vec::new();
         if matches!(ob.outcome, Outcome::Ok { .. }) && matches!(of.outcome, Outcome::Ok { .. }) && ob.parse_error.is_none() && of.parse_error.is_none() {
             loc = locality(c, ob, fm, of);
